@@ -96,6 +96,54 @@ def rule_r14(body, hits):
     return out
 
 
+def rule_r15(body, hits):
+    """R15: inline nom 7.1.3 `combinator::map_res(P, |x| F)(i)?` at a `let (i, X) = ...;` statement:
+         let (i, X) = { let __mr_in = i; let (__mr_rest, __mr_o1) = P(__mr_in)?;
+                        match ({ let x = __mr_o1; F }) { Ok(__mr_o2) => (__mr_rest, __mr_o2),
+                            Err(_) => { return Err(nom::Err::Error(nom::error::Error::new(__mr_in, nom::error::ErrorKind::MapRes))); } } };
+    This is the body of map_res (src/combinator/mod.rs) with the closure applied in place, so that a closure that only
+    exists to hand `&mut parser` to the inner parser no longer captures it (Verus has no mutable captures)."""
+    out = body
+    pos = 0
+    while True:
+        m = mask(out)
+        mm = re.compile(r"let\s*\(\s*i\s*,\s*(\w+)\s*\)\s*=\s*map_res\(").search(m, pos)
+        if not mm:
+            break
+        op = mm.end() - 1
+        cl = match_close(m, op)
+        inner = out[op + 1:cl]
+        mi = mask(inner)
+        # split at the first top-level comma
+        depth = 0
+        k = 0
+        while k < len(mi):
+            ch = mi[k]
+            if ch in "([{":
+                depth += 1
+            elif ch in ")]}":
+                depth -= 1
+            elif ch == "," and depth == 0:
+                break
+            k += 1
+        p_arg = inner[:k].strip()
+        clo = inner[k + 1:].strip()
+        cm = re.match(r"\|\s*(\w+)\s*\|\s*(.*)$", clo, re.S)
+        tail = re.match(r"\s*\(i\)\?\s*;", out[cl + 1:])
+        if not cm or not tail:
+            raise AnchorLost("R15: map_res statement not in the expected shape")
+        x, f_body = cm.group(1), cm.group(2).strip()
+        rep = ("let (i, %s) = { let __mr_in = i; let (__mr_rest, __mr_o1) = %s(__mr_in)?; "
+               "match ({ let %s = __mr_o1; %s }) { Ok(__mr_o2) => (__mr_rest, __mr_o2), "
+               "Err(_) => { return Err(nom::Err::Error(nom::error::Error::new(__mr_in, nom::error::ErrorKind::MapRes))); } } };"
+               % (mm.group(1), p_arg, x, f_body))
+        end = cl + 1 + tail.end()
+        out = out[:mm.start()] + rep + out[end:]
+        pos = mm.start() + len(rep)
+        hits["R15"] = hits.get("R15", 0) + 1
+    return out
+
+
 def apply_rules(body, rules, hits):
     for r in rules:
         if r not in RULES:
@@ -273,8 +321,9 @@ class Extractor:
         s = self.source(src)
         rng = self.scope(s, modpath)
         if impl_rx != "-":
-            rng = s.find_impl(rng, impl_rx)
-        fs, bo, bc = s.find_fn(rng, fname)
+            fs, bo, bc = s.find_fn_in_impls(rng, impl_rx, fname)
+        else:
+            fs, bo, bc = s.find_fn(rng, fname)
         sig = s.text[fs:bo].rstrip()
         body = s.text[bo:bc + 1]
         raw = s.text[fs:bc + 1]
@@ -306,9 +355,11 @@ class Extractor:
                 sig = re.sub(r"\bfn\s+%s\b(?!\s*<)" % fname, "fn %s%s" % (fname, val.strip()), sig, count=1)
         for key, val in opts:
             if key == "prerules":
-                body = apply_rules(body, [r for r in val.split() if r != "R14"], hits)
+                body = apply_rules(body, [r for r in val.split() if r not in ("R14", "R15")], hits)
                 if "R14" in val.split():
                     body = rule_r14(body, hits)
+                if "R15" in val.split():
+                    body = rule_r15(body, hits)
         # ---- body edits, applied from the end so offsets stay valid
         edits = []  # (pos_start, pos_end, replacement)
         cl = None
@@ -450,7 +501,11 @@ class Extractor:
                 raise TemplateError("fn %s: only extra ensures may be combined with contract: file" % fname)
             contract_block = contract_block.rstrip() + "\n" + "".join("        %s,\n" % v for v in extra)
             ctext = ""
-        return "/*@uc:%s*/ " % fname + sig + "\n" + (contract_block or ctext) + body + "\n"
+        owner = re.findall(r"[A-Za-z_][A-Za-z_0-9]*", impl_rx.replace("nom_derive", "").replace("Parse", ""))
+        owner = owner[-1] if owner and impl_rx != "-" else ""
+        label = (owner + "::" if owner else "") + fname
+        self.meta["functions"][-1]["label"] = label
+        return "/*@uc:%s*/ " % label + sig + "\n" + (contract_block or ctext) + body + "\n"
 
     # ------------------------------------------------------------------
     def expand(self, path, depth=0):
